@@ -132,6 +132,23 @@ struct SeqEngine final : Engine {
       std::set<std::string> s(pg.keys.begin(), pg.keys.end());
       pool.assign(s.begin(), s.end());
     }
+    // "full node" shape: all 256 byte values at one position (plus a few keys one level below), inserted in bulk at the
+    // start of the history, so that a node with exactly 256 children (children count wraps to 0 in a byte) exists when
+    // later operations, clear() and the destructor run
+    Rng br = stream(seed, S_WORKLOAD + 32);
+    const bool bulk = !nonrep && br.chance(0.05);
+    if (bulk) {
+      pool.clear();
+      deep = false;
+      const size_t p = br.below(static_cast<uint64_t>(std::min(L, 8)));
+      for (int b = 0; b < 256; b++) { std::string k = base; k[p] = static_cast<char>(b); pool.push_back(k); }
+      if (p + 1 < static_cast<size_t>(std::min(L, 8)) && br.chance(0.5))
+        for (int i = 0; i < 6; i++) { std::string k = base; k[p] = static_cast<char>(br.below(256)); k[p + 1] = static_cast<char>(k[p + 1] ^ (1 + i)); pool.push_back(k); }
+      std::sort(pool.begin(), pool.end());
+      pool.erase(std::unique(pool.begin(), pool.end()), pool.end());
+    }
+    c.set_knob("bulk", bulk ? 1 : 0);
+    if (bulk && focus == 8) c.set_knob("budget", 200000000);  // hooks stay active in C08 runs; 256+ keys are re-read after every injected fault
     if (pool.size() < 2) { std::string k = base; k[0] = static_cast<char>(k[0] ^ 1); pool.push_back(base); pool.push_back(k); }
     // variable-length byte-string keys: every key is cut somewhere beyond the byte that tells it from its nearest
     // neighbours, which keeps the pool prefix-free (the index's contract) while stored keys end at different depths
@@ -204,6 +221,18 @@ struct SeqEngine final : Engine {
       else if (x < 55) { const size_t extra = 1 + r.below(3); for (size_t i = 0; i < extra && k.size() < 60; i++) k.push_back(static_cast<char>(r.chance(0.4) ? 0x00 : (r.chance(0.5) ? 0xFF : static_cast<int>(r.below(256))))); }
       return k;
     };
+    if (bulk) {
+      std::vector<std::string> order = pool;
+      for (size_t i = order.size(); i > 1; i--) std::swap(order[i - 1], order[br.below(i)]);
+      const size_t n = br.chance(0.7) ? order.size() : order.size() - br.below(3);
+      for (size_t i = 0; i < n; i++) {
+        Op o; o.kind = S_INSERT; o.key = order[i]; o.key2 = std::string(static_cast<size_t>(L), '\0');
+        o.a = static_cast<int64_t>(++vid); o.b = br.range(0, 12); o.d = static_cast<int64_t>(br.below(static_cast<uint64_t>(nthreads)));
+        present.insert(o.key);
+        ops.push_back(std::move(o));
+      }
+    }
+    Rng fr = stream(seed, S_FAULT);
     for (int i = 0; i < nops; i++) {
       const int phase = i * nphases / nops;
       static const double ins_bias[] = {0.75, 0.25, 0.5};
@@ -262,6 +291,8 @@ struct SeqEngine final : Engine {
       }
       if (o.key2.empty()) o.key2 = std::string(static_cast<size_t>(L), '\0');
       if (o.key.empty()) o.key = std::string(static_cast<size_t>(L), '\0');
+      // C10: statistics and memory accounting must match the key set after *failed* operations as well
+      if (focus == 10 && (o.kind == S_INSERT || o.kind == S_REMOVE) && fr.chance(0.04)) o.c = fr.range(1, 2);
       ops.push_back(std::move(o));
     }
     c.threads.push_back(std::move(ops));
@@ -323,6 +354,8 @@ struct SeqEngine final : Engine {
     if (c.knob("nthreads", 1) > 1) st.bump("histories_issued_from_several_threads");
     if (c.knob("deep", 0)) st.bump("histories_deep_byte_string_keys_branching_beyond_byte_8");
     if (c.knob("varlen", 0)) st.bump("histories_variable_length_byte_string_keys");
+    if (c.knob("bulk", 0)) st.bump("histories_with_a_node_of_all_256_children");
+    if (o.reached_nonrep && !c.knob("nonrep", 0)) st.bump("histories_cut_short_at_a_nonrepresentable_key_set");
     if (c.knob("varbound", 0) && o.scans) st.bump("histories_scan_bounds_of_other_lengths_than_stored_keys");
     if (focus == 8) res.nontrivial = o.faults_delivered + o.length_errors >= 1;
     else if (focus == 10 || focus == 0) res.nontrivial = kinds >= 3;
